@@ -24,6 +24,14 @@ PROPS = {
              "thorough": {"checks": 2500, "shards": 16, "timeout": 1800}},
         ],
     },
+    "C06": {
+        "level": "exploration",
+        "jobs": [
+            {"test": "TestC06VT", "variant": "vt", "shrinktime": "100000h", "confirm_env": {"VERIF_REALTIME": "1"},
+             "quick": {"checks": 1200, "shards": 8, "timeout": 400},
+             "thorough": {"checks": 4500, "shards": 16, "timeout": 2400}},
+        ],
+    },
     "C07": {
         "level": "exploration",
         "jobs": [
@@ -44,6 +52,17 @@ PROPS = {
             {"test": "TestC08Sub", "variant": "std",
              "quick": {"checks": 25, "shards": 6, "timeout": 400},
              "thorough": {"checks": 500, "shards": 6, "timeout": 2400}},
+        ],
+    },
+    "C09": {
+        "level": "exploration",
+        "jobs": [
+            {"test": "TestC09VT", "variant": "vt", "shrinktime": "100000h", "confirm_env": {"VERIF_REALTIME": "1"},
+             "quick": {"checks": 600, "shards": 8, "timeout": 400},
+             "thorough": {"checks": 3000, "shards": 16, "timeout": 2400}},
+            {"test": "TestC09RT", "variant": "std",
+             "quick": {"checks": 2, "shards": 6, "timeout": 400},
+             "thorough": {"checks": 12, "shards": 12, "timeout": 2400}},
         ],
     },
     "C10": {
